@@ -316,6 +316,12 @@ def unit_include_path(eng=None, tree=None):
     return dict(unit="include-path", func="metacommands.include (run-time check)", paths=n, obligations=[ob], wall=0.0)
 
 
+def unit_text_identity(eng):
+    """a character reaches the codec as it is written in the file: parser.parse hands the file's own text to the scanner (frame, contracts/c17.py)"""
+    from contracts import c17
+    return c17.unit_text_identity(eng)
+
+
 def unit_rac(eng, tier="quick"):
     """run-time check: error positions on random strings mixing encodable and unencodable characters"""
     import os
@@ -363,6 +369,8 @@ def interesting(cp):
     for form in ("NFC", "NFD", "NFKC", "NFKD"):
         if unicodedata.normalize(form, ch) != ch:
             return True
+    if unicodedata.category(ch) in ("Cf", "Cc", "Zs", "Zl", "Zp", "Mn", "Me", "Lm", "Sk"):
+        return True      # format / control / space / combining characters: what a well-meant clean-up of the source text would drop
     return ch.upper() != ch or ch.lower() != ch or ch.casefold() != ch
 cps = [cp for cp in range(0x110000) if not (0xD800 <= cp <= 0xDFFF) and (tier != "quick" or interesting(cp)) and chr(cp) not in '"\\\n\r\t']
 if tier != "quick":
@@ -447,7 +455,7 @@ result = [n, len(cps), bad]
 
 
 def units(tier):
-    return [("tables", "unit_closed", {}), ("encode", "unit_encode", {}), ("decode", "unit_decode", {}), ("charliteral", "unit_charliteral", {}), ("bk_filename", "unit_bk_filename", {}), ("include-path", "unit_include_path", {}),
+    return [("tables", "unit_closed", {}), ("encode", "unit_encode", {}), ("decode", "unit_decode", {}), ("charliteral", "unit_charliteral", {}), ("bk_filename", "unit_bk_filename", {}), ("include-path", "unit_include_path", {}), ("text-identity", "unit_text_identity", {}),
             ("rac", "unit_rac", dict(tier=tier)), ("string-path", "unit_string_path", dict(tier=tier)), ("QuotedString", "unit_quoted_string", {})]
 
 
